@@ -28,6 +28,10 @@ use digest::Digest;
 use rug::{integer::Order, Complete, Integer};
 use serde::{Deserialize, Serialize};
 
+/// Extra bit length of every blinding value over the secret it masks: the 256-bit challenge plus an 80-bit
+/// statistical margin, so that `response / challenge` (or a ratio of responses) does not reveal the secret.
+const MASK: u32 = 256 + 80;
+
 #[derive(Clone, PartialEq, Eq, Debug, Serialize, Deserialize)]
 pub(crate) struct NISP2Commitments {
     challenge: Integer,
@@ -65,11 +69,11 @@ impl NISP2Commitments {
         // Initialize multiple random values, equivalent to secrets m_i and stored in a list
         let mut omega: Vec<Integer> = Vec::new();
         for _i in unrevealed_message_indexes {
-            omega.push(random_bits(CS::lm));
+            omega.push(random_bits(CS::lm + MASK));
         }
 
-        let mu_1 = random_bits(CS::ln);
-        let mu_2 = random_bits(CS::ln);
+        let mu_1 = random_bits(CS::ln + MASK);
+        let mu_2 = random_bits(CS::ln + MASK);
 
         let mut w_1 = Integer::from(1);
         let mut w_2 = Integer::from(1);
@@ -224,8 +228,8 @@ impl NISPSecrets {
         CS: CLCiphersuite,
         CS::HashAlg: Digest,
     {
-        let r1 = random_bits(CS::lm);
-        let r2 = random_bits(CS::ln);
+        let r1 = random_bits(CS::ln + MASK);
+        let r2 = random_bits(CS::ln + MASK);
 
         let t = (Integer::from(g1.pow_mod_ref(&r1, &n1).unwrap())
             * Integer::from(h1.pow_mod_ref(&r2, &n1).unwrap()))
@@ -296,10 +300,10 @@ impl NISPMultiSecrets {
 
         let mut r1: Vec<Integer> = Vec::new();
         for _ in unrevealed_message_indexes {
-            r1.push(random_bits(CS::lm));
+            r1.push(random_bits(CS::lm + MASK));
         }
 
-        let r2 = random_bits(CS::ln);
+        let r2 = random_bits(CS::ln + MASK);
 
         let h1 = &signer_pk.b;
         let n1 = &signer_pk.N;
@@ -453,21 +457,21 @@ impl NISPSignaturePoK {
         let (_Ce, re) = (C_Ce.value(), C_Ce.randomness());
 
         let (r_1, r_2, r_3, r_4, r_6, r_7, r_8, r_9) = (
-            random_bits(CS::ln),
-            random_bits(CS::ln),
-            random_bits(CS::ln),
-            random_bits(CS::ln),
-            random_bits(CS::ln),
-            random_bits(CS::ln),
-            random_bits(CS::ln),
-            random_bits(CS::ln),
+            random_bits(CS::ln + MASK),                  // masks rw
+            random_bits(CS::ln + CS::le + MASK),         // masks rw * e
+            random_bits(CS::ln + MASK),                  // masks rx
+            random_bits(CS::le + MASK),                  // masks e
+            random_bits(CS::ls + 1 + MASK),              // masks s
+            random_bits(CS::ln + MASK),                  // masks w
+            random_bits(CS::ln + CS::le + MASK),         // masks w * e
+            random_bits(CS::ln + MASK),                  // masks re
         );
 
         let mut r_5: Vec<Integer> = Vec::new();
 
         for i in 0..n_attr {
             if unrevealed_message_indexes.contains(&i) {
-                r_5.push(random_bits(CS::ln));
+                r_5.push(random_bits(CS::lm + MASK));
             } else {
                 r_5.push(messages.get(i).expect("index overflow").value.clone());
             }
